@@ -32,6 +32,9 @@ PLANS = {
 MC_OF = {"C06": "C07", "C08": "C01"}
 
 
+st0 = {"op": "", "c": "", "n": "", "reqs": [], "hex": "", "kind": "", "cls": "", "to": "", "count": 0, "src": "", "text": ""}
+
+
 def _stims(sc):
     for st in sc["steps"]:
         for s in st["stim"]:
@@ -131,6 +134,19 @@ def run(pid, tier, seed):
             if not gen_core.PROFILES[prof].get("directed"):
                 n2 = max(40, (PLANS[pid][0][1] if q else PLANS[pid][0][2]) // 4)
                 groups.append((dict(gen_core.cfg_for(prof), conns=2), gen_core.gen_many(seed + 7919, prof, n2), "rw2-" + prof, None))
+        # ... and with a backend password and one replica per master (AUTH / READONLY handshakes on every backend connection,
+        # reads served by replicas)
+        if pid not in ("C10", "C08") and PLANS[pid]:
+            prof = PLANS[pid][0][0]
+            if not gen_core.PROFILES[prof].get("directed"):
+                n3 = max(40, (PLANS[pid][0][1] if q else PLANS[pid][0][2]) // 5)
+                pw = json.loads(json.dumps(gen_core.gen_many(seed + 104729, prof, n3)))
+                for sc in pw:
+                    if not gen_core.PROFILES[prof].get("stall"):
+                        for _ in range(2):
+                            sc["steps"].append({"stim": [dict(st0, op="answer", n=n, kind="ok", count=12) for n in ("r1", "r2", "r3", "n1", "n2", "n3")],
+                                                "settle": True, "noIter": False})
+                groups.append((dict(gen_core.cfg_for(prof), password="pw", replicas=1), pw, "rwpw-" + prof, None))
         grp = {}
         if pid == "C06":
             groups.append(({"masters": 3, "mode": "step"}, gen_core.gen_split(seed, 300 if q else 8000, 12 if q else 60), "split", None))
